@@ -40,7 +40,7 @@ COMPONENTS = {"real": ["TunnelEndpoint (send, set_anonymity, set_tunnel_communit
 ASSUMPTIONS = ["while anonymity is switched off for a prefix its packets may use the raw socket (that is what the switch means)"]
 REACH = ["anon_send_no_circuit_queued", "anon_send_over_ready_circuit", "queue_overflow", "detached_drop", "plain_raw_ok",
          "circuit_closing_with_queue", "net_anon_delivered_via_exit", "net_hop_crashed", "wrong_circuit_not_used",
-         "second_endpoint_same_prefix", "net_blind_exit_circuit_ready", "service_with_statistics", "service_without_statistics", "anonymized_overlay_restarted", "circuits_removed_right_after_send_with_backlog"]
+         "second_endpoint_same_prefix", "net_blind_exit_circuit_ready", "service_with_statistics", "service_without_statistics", "anonymized_overlay_restarted", "circuits_removed_right_after_send_with_backlog", "queue_overflow_many_destinations"]
 
 ALPHA = "APRWCXDTNYQO"
 ANON_PREFIX = b"\x00\x02" + b"\xa1" * 20
@@ -80,11 +80,11 @@ def _net_case(seed: int) -> dict:
     ops = []
     for _ in range(rng.choice([6, 12, 30])):
         ops.append(rng.choices(["anon", "plain", "build", "wait", "remove", "crash_hop", "detach", "attach", "anon_off", "anon_on",
-                                "burst", "hops2", "hops1", "build_blind", "other_off", "other_send", "reload", "anon_then_remove"],
-                               [30, 12, 8, 14, 8, 4, 4, 5, 3, 4, 3, 2, 3, 5, 3, 5, 4, 4])[0])
+                                "burst", "hops2", "hops1", "build_blind", "other_off", "other_send", "reload", "anon_then_remove", "burst_many"],
+                               [30, 12, 8, 14, 8, 4, 4, 5, 3, 4, 3, 2, 3, 5, 3, 5, 4, 4, 3])[0])
     if rng.random() < 0.2:
         # a backlog held back while there is no circuit, then a circuit, then a send directly followed by giving the circuit up
-        ops = ["burst", "build", "wait", "wait", "anon_then_remove", *ops[:6]]
+        ops = [rng.choice(["burst", "burst_many"]), "build", "wait", "wait", rng.choice(["anon_then_remove", "anon"]), *ops[:6]]
     return {"scenario": "net", "seed": seed, "ops": ops,
             "knobs": {"lat_jit": rng.choice([0.0, 0.05]), "loss": rng.choice([0.0, 0.0, 0.1]), "timer_jitter": rng.choice([0.0, 0.001])}}
 
@@ -411,10 +411,22 @@ def run_net(c: Case, case: dict) -> dict:  # noqa: C901, PLR0915
         tc.send_data = send_data
         inner_ep_send = me.endpoint.send
 
+        depth = {"n": 0, "carried": 0}
+
         def ep_send(address, packet):  # noqa: ANN001, ANN202
             if packet[:22] == aprefix:
                 handed_net[packet] = handed_net.get(packet, 0) + 1      # whatever the overlay hands to its endpoint, also on its own
-            return inner_ep_send(address, packet)
+            c0 = sum(carried_net.values())
+            depth["n"] += 1
+            try:
+                return inner_ep_send(address, packet)
+            finally:
+                depth["n"] -= 1
+                flushed = sum(carried_net.values()) - c0
+                if depth["n"] == 0 and flushed > 101:
+                    # one send() wrote out its own packet plus everything that had been held back: the hold-back queue is bounded (100)
+                    c.violate("bounded_queue", "more_than_100_packets_were_held_back",
+                              f"a single send() handed {flushed} anonymized packets to the circuit: {flushed - 1} had been held back")
         me.endpoint.send = ep_send
 
         def on_send(pkt, fate) -> None:  # noqa: ANN001
@@ -446,6 +458,13 @@ def run_net(c: Case, case: dict) -> dict:  # noqa: C901, PLR0915
                     removing.add(cid)
                     me.call(tc.remove_circuit, cid, "c07 right after send", destroy=1)
                 world.probe("circuits_removed_right_after_send")
+            elif op == "burst_many":
+                # a burst to MANY different destinations while packets are held back
+                for k in range(150):
+                    dest = (f"3.3.{1 + k // 200}.{1 + k % 200}", 7000 + k)
+                    pkt = me.call(anon.create_introduction_request, dest)
+                    me.call(anon.endpoint.send, dest, pkt)
+                world.probe("queue_overflow_many_destinations")
             elif op == "burst":
                 pkt = me.call(anon.create_introduction_request, target.address)
                 for _ in range(120):
